@@ -6,7 +6,7 @@
 From DV Require Import Base.Prelude Model.NameM Model.TokM Model.RdTextM.
 From DV Require Import Proofs.NameValid Proofs.NameOrder Proofs.NameText.
 From DV Require Import Proofs.TokEsc Proofs.TokTxt Proofs.TokWords Proofs.TokDec Proofs.TokHex
-     Proofs.TokShape Proofs.TokGeneric Proofs.TokUtf8 Proofs.RdTextName Proofs.RdTextAddr Proofs.RdTextBitmap Proofs.RdTextTypes Proofs.RdTextB32 Proofs.RdTextSig Proofs.RdTextEui Proofs.RdTextFmtHex Proofs.RdText Proofs.RdTextRel Proofs.RdTextWire Proofs.RdTextSchemaTie.
+     Proofs.TokShape Proofs.TokGeneric Proofs.TokUtf8 Proofs.RdTextName Proofs.RdTextAddr Proofs.RdTextBitmap Proofs.RdTextTypes Proofs.RdTextB32 Proofs.RdTextSig Proofs.RdTextEui Proofs.RdTextFmtHex Proofs.RdTextLoc Proofs.RdText Proofs.RdTextRel Proofs.RdTextWire Proofs.RdTextSchemaTie.
 From DV Require Model.SchemaM.
 Open Scope Z_scope.
 
@@ -285,6 +285,29 @@ Example formatted_hex_examples :
   /\ schema_of 104 = Some [u16; FFmtHex] /\ schema_of 106 = Some [u16; FFmtHex].
 Proof. repeat split; vm_compute; reflexivity. Qed.
 
+(* ------------------------------------------------------------------ LOC *)
+
+(* dns/rdtypes/ANY/LOC.py keeps the altitude and the three sizes as floats and prints them with
+   format(x / 100.0, "0.2f"); from_text reads float(t) * 100.0.  The model does this in IEEE-754 double arithmetic
+   (round_q: correctly rounded, ties to even; compared with CPython on every run).  The record-level theorem
+   (FLocRec case of text_roundtrip_schema) reduces the round trip to the per-number map num_reparse; for the
+   numbers that records read from wire contain it is settled here:
+   - the sizes base * 10^exponent cm (RFC 1876, 100 values): the re-read float has the same int(), hence the same
+     encoded octet, and passes _encode_size;
+   - the altitude (whole cm): round(float(text) * 100.0) is the altitude again - swept for 2000 values at each end
+     of the wire range and around zero (partial: the remaining values are left to the record-level oracle). *)
+Theorem loc_sizes_from_wire_roundtrip : forall b e, 0 <= b <= 9 -> 0 <= e <= 9 ->
+  exists y, num_reparse (wire_size b e) = FFin y /\ dbl_trunc y = dbl_trunc (wire_size b e) /\
+    loc_size_ok (FFin y) = Ok tt /\ 0 <= dm (wire_size b e).
+Proof. exact wire_size_roundtrip. Qed.
+Print Assumptions loc_sizes_from_wire_roundtrip.
+
+Theorem loc_altitude_roundtrip_partial : forall alt,
+  (-10000000 <= alt < -9998000) \/ (-1000 <= alt < 1000) \/ (4284965296 <= alt < 4284967296) ->
+  exists a', num_reparse (the_dbl (dbl_of_Z alt)) = FFin a' /\ dbl_round a' = alt.
+Proof. exact altitude_roundtrip_swept. Qed.
+Print Assumptions loc_altitude_roundtrip_partial.
+
 (* ------------------------------------------------------------------ whole records *)
 
 (* The regular rdata types as field lists (schema_of): decimal fields of every width, TTLs, names,
@@ -315,14 +338,20 @@ Theorem text_roundtrip_every_schema_type : forall rdtype fs sty c vs text vs' re
 Proof. exact record_roundtrip_type. Qed.
 Print Assumptions text_roundtrip_every_schema_type.
 
-(* names printed and parsed without any origin: exactly the same values *)
+(* names printed and parsed without any origin: exactly the same values (asis_vals is the identity except on the
+   three LOC sizes, which come back as re-read from their two-decimal text; see the LOC section) *)
 Theorem text_roundtrip_asis : forall sty c fs chk vs text rest fw tw,
   schema_wf fs -> Forall2 val_ok fs vs -> style_ok sty -> (rest = [] \/ exists r, rest = 10 :: r) ->
   s_origin sty = None -> p_origin c = None -> p_relativize_to c = None ->
-  record_to_text sty fs vs = Ok text -> chk vs = Ok tt ->
-  record_from_text_gen fw tw c fs chk (text ++ rest) = Ok vs.
+  record_to_text sty fs vs = Ok text -> chk (asis_vals fs vs) = Ok tt ->
+  record_from_text_gen fw tw c fs chk (text ++ rest) = Ok (asis_vals fs vs).
 Proof. exact record_roundtrip_asis. Qed.
 Print Assumptions text_roundtrip_asis.
+
+Theorem asis_is_identity_without_loc : forall fs vs, length fs = length vs ->
+  existsb (fun f => match f with FLocRec => true | _ => false end) fs = false -> asis_vals fs vs = vs.
+Proof. exact asis_vals_id. Qed.
+Print Assumptions asis_is_identity_without_loc.
 
 (* relativity: a name below the (absolute) origin, relativized on output and read back with the same
    origin, is relativize(n, origin) when relativize=True and a name equal to n up to ASCII case
@@ -432,6 +461,29 @@ Example tail_field_examples :
   | _, _, _ => False
   end.
 Proof. vm_compute. repeat split; reflexivity. Qed.
+
+(* IEEE-754 checks: 1.15 * 100.0 = 114.99999999999999 (int 114, round 115); 0.29 * 100.0 truncates to 28;
+   a LOC with default sizes (omitted) and one whose size 0.07m is re-read as 7.000000000000001 cm (same int()) *)
+Example loc_examples :
+  (match float_of_text [49; 46; 49; 53] with
+   | Ok x => match fmul100 x with FFin d => Some (dm d, de d, dbl_round d, dbl_trunc d) | _ => None end
+   | _ => None end) = Some (8092405580431359, -46, 115, 114)
+  /\ (match float_of_text [48; 46; 50; 57] with
+      | Ok x => match fmul100 x with FFin d => Some (dbl_trunc d) | _ => None end | _ => None end) = Some 28
+  /\ match schema_of 29 with
+     | Some loc =>
+         let l1 := [VLoc (42, 21, 54, 0, 1) (71, 6, 18, 0, -1) (-2400) loc_default_size loc_default_hprec loc_default_vprec] in
+         let l2 := [VLoc (90, 0, 0, 1, -1) (0, 0, 0, 999, 1) 4284967295 (wire_size 7 0) (wire_size 1 6) (wire_size 0 0)] in
+         (do text <- record_to_text ex_sty loc l1; Ok text)
+         = Ok [52;50;32;50;49;32;53;52;46;48;48;48;32;78;32;55;49;32;54;32;49;56;46;48;48;48;32;87;32;45;50;52;46;48;48;109]
+         /\ (do text <- record_to_text ex_sty loc l1; record_from_text ex_ctx loc (schema_chk 29) text) = Ok l1
+         /\ (do text <- record_to_text ex_sty loc l2; record_from_text ex_ctx loc (schema_chk 29) (text ++ [10]))
+            = Ok [VLoc (90, 0, 0, 1, -1) (0, 0, 0, 999, 1) 4284967295
+                       (the_dbl (num_reparse (wire_size 7 0))) (wire_size 1 6) (wire_size 0 0)]
+         /\ dbl_trunc (the_dbl (num_reparse (wire_size 7 0))) = 7 /\ the_dbl (num_reparse (wire_size 7 0)) <> wire_size 3 1
+     | None => False
+     end.
+Proof. vm_compute. repeat split; try reflexivity. discriminate. Qed.
 
 (* SVCB / HTTPS: mandatory + alpn with a comma and a backslash inside an id (two levels of escaping) + port +
    hints + ech + an unregistered key with binary data + a valueless key; AliasMode; the record is read back; a
